@@ -81,6 +81,7 @@ type Report struct {
 	SampleTrace    []string       `json:"sample_trace,omitempty"`
 	WallS          float64        `json:"wall_s"`
 	ReplayChecked  int            `json:"replay_determinism_checked"`
+	HorizonHits    int            `json:"horizon_hits"`
 }
 
 type explorer struct {
@@ -146,6 +147,14 @@ func (e *explorer) check(x *Exec, res *Result, choices []int32, devs int, counte
 		e.rep.MaxThreads = x.nthreads
 	}
 	e.rep.Status[res.Status.String()]++
+	if res.Status == StSteps {
+		// step horizon or timer-event horizon: this execution was cut short. It is never judged
+		// (a correct but longer-running tree must not raise an alarm); the run is reported as not
+		// exhaustive.
+		e.rep.Complete = false
+		e.rep.HorizonHits++
+		return
+	}
 	if e.sc.Expect != nil {
 		label := ""
 		for _, ev := range res.Events {
